@@ -100,10 +100,15 @@ def _ground_consts(fs):
                 if not visit(c):
                     g = False
         seen[i] = g
-        if g and z3.is_app(t):
-            s = t.sort()
-            if s.kind() == z3.Z3_UNINTERPRETED_SORT and t.decl().kind() in (z3.Z3_OP_UNINTERPRETED, z3.Z3_OP_SELECT, z3.Z3_OP_ITE):
-                out.setdefault(s.name(), {})[i] = t
+        if z3.is_app(t):
+            # relevant instantiation terms (E-matching by hand): ground terms used as the *index* of a select, plus
+            # uninterpreted constants (skolems, parameters)
+            if t.decl().kind() == z3.Z3_OP_SELECT:
+                ix = t.arg(1)
+                if seen.get(ix.get_id()) and ix.sort().kind() == z3.Z3_UNINTERPRETED_SORT:
+                    out.setdefault(ix.sort().name(), {})[ix.get_id()] = ix
+            if g and t.num_args() == 0 and t.decl().kind() == z3.Z3_OP_UNINTERPRETED and t.sort().kind() == z3.Z3_UNINTERPRETED_SORT:
+                out.setdefault(t.sort().name(), {})[i] = t
         return g
 
     import sys
@@ -194,32 +199,32 @@ def decide(ob, str_axioms, timeout_ms=20000, use_cvc5=True, name=None):
     tried.append(("z3", r[0], r[1] if isinstance(r[1], float) else 0.0))
     if r[0] == "unsat":
         return (name, "unsat", "z3", r[1], None, tried, full)
-    if r[0] == "sat":
-        return (name, "sat", "z3", r[1], r[2], tried, full)
+    # NB: a `sat` of the full query is not final -- prelude axioms are instantiated per ground term, and terms under a
+    # quantifier only become ground in the instantiated query below.
+    full_sat = r if r[0] == "sat" else None
     inst, complete = build_inst(ob, str_axioms)
     rq = ("skipped", 0.0, None)
-    if len(inst) < 3000000:
+    if len(inst) < 12000000:
         rq = _solve_z3(inst, min(timeout_ms, 10000))
         tried.append(("z3-inst", rq[0], rq[1] if isinstance(rq[1], float) else 0.0))
         if rq[0] == "unsat":
             return (name, "unsat", "z3-inst", rq[1], None, tried, full)
-    r = _solve_z3(full, timeout_ms)
-    tried.append(("z3", r[0], r[1] if isinstance(r[1], float) else 0.0))
-    if r[0] == "unsat":
-        return (name, "unsat", "z3", r[1], None, tried, full)
-    if r[0] == "sat":
-        return (name, "sat", "z3", r[1], r[2], tried, full)
-    if use_cvc5:
+    if rq[0] == "sat" and full_sat is not None:
+        return (name, "sat", "z3+z3-inst", rq[1], rq[2], tried, full)
+    if full_sat is None:
+        r = _solve_z3(full, timeout_ms)
+        tried.append(("z3", r[0], r[1] if isinstance(r[1], float) else 0.0))
+        if r[0] == "unsat":
+            return (name, "unsat", "z3", r[1], None, tried, full)
+    if use_cvc5 and rq[0] != "sat":
         r2 = _solve_cvc5(full, CVC5_TIMEOUT_S)
         tried.append(("cvc5", r2[0], r2[1]))
         if r2[0] == "unsat":
             return (name, "unsat", "cvc5", r2[1], None, tried, full)
-        if r2[0] == "sat" and rq[0] != "sat":
-            return (name, "sat", "cvc5", r2[1], None, tried, full)
     if rq[0] == "sat":
         # instantiated query has a model, the full query is undecided: a candidate counter-model
         return (name, "sat", "z3-inst" if complete else "z3-inst(candidate)", rq[1], rq[2], tried, full)
-    return (name, "unknown", "z3", r[1] if isinstance(r[1], float) else 0.0, r[2], tried, full)
+    return (name, "unknown", "z3", r[1] if isinstance(r[1], float) else 0.0, r[2] if r[0] == "unknown" else "full query sat, instantiated query undecided", tried, full)
 
 
 def _solve_z3(smt2, timeout_ms):
